@@ -57,14 +57,32 @@ type BCfg struct {
 	RR, RN uint64 // genesis reserves: R's pool of R-token (pool id 2+LiquidityPoolAddend on R), N's pool of N-token (1+LiquidityPoolAddend on N)
 	// NoLP: the pools hold seeded liquidity but nobody ever provided liquidity: no point holders, total points 0
 	NoLP bool
+	// Capped: the pools already hold lib.MaxLiquidityProviders point holders (dead address, P and
+	// fillers of fillerPoints points each), so every new provider goes through handleCappedBatchDeposit:
+	// rejected (escrow returned) or admitted by force-withdrawing the lowest holder
+	Capped bool
 }
 
+const (
+	fillerPoints  = 100
+	fillerTracked = 8 // the first fillers are the eviction candidates; their balances are observed
+)
+
+func fillerAddr(i int) []byte {
+	a := bytes.Repeat([]byte{0xF1}, 20)
+	a[18], a[19] = byte(i>>8), byte(i)
+	return a
+}
+
+func isFiller(a []byte) bool { return len(a) == 20 && bytes.Equal(a[:18], bytes.Repeat([]byte{0xF1}, 18)) }
+
 var BConfigs = []BCfg{
-	{"1e3x1e3", 1000, 1000, false},
-	{"1x1", 1, 1, false},
-	{"1x2p62", 1, 1 << 62, false},
-	{"2p63x2p63", 1 << 63, 1 << 63, false},
-	{"1e3x1e3-nolp", 1000, 1000, true},
+	{"1e3x1e3", 1000, 1000, false, false},
+	{"1x1", 1, 1, false, false},
+	{"1x2p62", 1, 1 << 62, false, false},
+	{"2p63x2p63", 1 << 63, 1 << 63, false, false},
+	{"1e3x1e3-nolp", 1000, 1000, true, false},
+	{"1e6x1e6-capped", 1_000_000, 1_000_000, false, true},
 }
 
 func bCfgByName(n string) BCfg {
@@ -93,6 +111,9 @@ func (o BOp) String() string {
 	case "pair":
 		return fmt.Sprintf("orders%s(large/at+large/above)", o.Chain)
 	case "deposit":
+		if o.Amt != "" {
+			return fmt.Sprintf("deposit%s(%s,%s)", o.Chain, who, o.Amt)
+		}
 		return fmt.Sprintf("deposit%s(%s)", o.Chain, who)
 	case "withdraw":
 		return fmt.Sprintf("withdraw%s(%s,%d%%)", o.Chain, who, o.Pct)
@@ -132,6 +153,35 @@ func BAlphabet(thorough bool) []BOp {
 	return a
 }
 
+// CappedAlphabet is the recipe alphabet of the provider-cap configuration. Deposit amounts: the pool
+// holds 10^6 on both sides with 10^6 points, so a one-sided deposit of d mints about d/2 points and the
+// lowest holder has fillerPoints=100: "small" (150 -> ~74 points) is rejected, "split" (two deposits of
+// 60 by the same newcomer in one batch -> ~59 points) is rejected as ONE provider, "split-big" (two of
+// 150 -> ~149 points) and the default large deposit out-rank the lowest holder, who is force-withdrawn.
+func CappedAlphabet() []BOp {
+	return []BOp{
+		{Kind: "tick"}, {Kind: "drop"}, {Kind: "fallback"},
+		{Kind: "deposit", Chain: "N", Who: kQ, Amt: "small"},
+		{Kind: "deposit", Chain: "N", Who: kQ, Amt: "split"},
+		{Kind: "deposit", Chain: "N", Who: kQ, Amt: "split-big"},
+		{Kind: "deposit", Chain: "N", Who: kQ},
+		{Kind: "deposit", Chain: "R", Who: kQ, Amt: "small"},
+		{Kind: "deposit", Chain: "R", Who: kQ, Amt: "split"},
+		{Kind: "deposit", Chain: "R", Who: kQ, Amt: "split-big"},
+		{Kind: "deposit", Chain: "N", Who: kP, Amt: "small"},
+		{Kind: "withdraw", Chain: "N", Who: kP, Pct: 100},
+		{Kind: "order", Chain: "N", Amt: "large", Req: "at"},
+	}
+}
+
+// AlphaFor is the recipe alphabet of a part-B configuration.
+func AlphaFor(cfgName string, thorough bool) []BOp {
+	if bCfgByName(strings.SplitN(cfgName, "#", 2)[0]).Capped {
+		return CappedAlphabet()
+	}
+	return BAlphabet(thorough)
+}
+
 // refDY is the harness's own statement of the constant-product output with the 1% input fee,
 // rounded down. It is used to pick "at / just below / just above" limits, never as an oracle.
 func refDY(x, y, dX uint64) uint64 {
@@ -152,6 +202,7 @@ type bChain struct {
 	name        string
 	id, counter uint64
 	c           *env.Chain
+	capped      bool
 }
 
 type bScan struct {
@@ -160,6 +211,7 @@ type bScan struct {
 	Locked *lib.DexBatch // nil = key absent
 	Next   *lib.DexBatch
 	Bal    map[int]uint64
+	Fill   map[string]uint64 // capped configuration: balances of the first fillers (hex address)
 }
 
 func scanB(ch *bChain) *bScan {
@@ -199,6 +251,12 @@ func scanB(ch *bChain) *bScan {
 	for _, k := range bTracked {
 		s.Bal[k] = balance(sm, addr(k))
 	}
+	if ch.capped {
+		s.Fill = map[string]uint64{}
+		for i := 0; i < fillerTracked; i++ {
+			s.Fill[hx(fillerAddr(i))] = balance(sm, fillerAddr(i))
+		}
+	}
 	return s
 }
 
@@ -233,14 +291,27 @@ func (s *bScan) dump(sb *strings.Builder, tag string) {
 	fmt.Fprintf(sb, "%s liq=%d tot=%d P[", tag, s.Liq.Amount, s.Liq.TotalPoolPoints)
 	pp := append([]*lib.PoolPoints{}, s.Liq.Points...)
 	sort.Slice(pp, func(i, j int) bool { return bytes.Compare(pp[i].Address, pp[j].Address) < 0 })
+	untouched := 0
 	for _, p := range pp {
+		if isFiller(p.Address) && p.Points == fillerPoints {
+			untouched++
+			continue
+		}
 		fmt.Fprintf(sb, "%s=%d,", short(p.Address), p.Points)
+	}
+	if untouched > 0 {
+		fmt.Fprintf(sb, "fillers=%d,", untouched)
 	}
 	fmt.Fprintf(sb, "] hold=%d ", s.Hold)
 	dumpBatch(sb, "L", s.Locked)
 	dumpBatch(sb, "N", s.Next)
 	for _, k := range bTracked {
 		fmt.Fprintf(sb, " b%d=%d", k, s.Bal[k])
+	}
+	for i := 0; i < fillerTracked && s.Fill != nil; i++ {
+		if v := s.Fill[hx(fillerAddr(i))]; v != 0 {
+			fmt.Fprintf(sb, " f%d=%d", i, v)
+		}
 	}
 	sb.WriteString("\n")
 }
@@ -318,6 +389,14 @@ func bGenesis(cfg BCfg, ch string) *fsm.GenesisState {
 	if cfg.NoLP {
 		p.Points, p.TotalPoolPoints = nil, 0
 	}
+	if cfg.Capped {
+		n := lib.MaxLiquidityProviders - 2
+		rest := L - L/10 - uint64(n)*fillerPoints
+		p.Points = []*lib.PoolPoints{{Address: deadAddress, Points: rest}, {Address: addr(kP), Points: L / 10}}
+		for i := 0; i < n; i++ {
+			p.Points = append(p.Points, &lib.PoolPoints{Address: fillerAddr(i), Points: fillerPoints})
+		}
+	}
 	g.Pools = append(g.Pools, p)
 	return g
 }
@@ -332,7 +411,7 @@ func newBWorld(cfg BCfg) (*bWorld, error) {
 		rc.Close()
 		return nil, err
 	}
-	w := &bWorld{cfg: cfg, R: &bChain{"R", 1, 2, rc}, N: &bChain{"N", 2, 1, nc}, items: map[string]*bItem{}, uses: map[string]int{}, once: map[string]bool{}}
+	w := &bWorld{cfg: cfg, R: &bChain{"R", 1, 2, rc, cfg.Capped}, N: &bChain{"N", 2, 1, nc, cfg.Capped}, items: map[string]*bItem{}, uses: map[string]int{}, once: map[string]bool{}}
 	return w, nil
 }
 
@@ -424,9 +503,25 @@ func (w *bWorld) userTxs(op BOp, sr, sn *bScan) []bUserTx {
 	case "pair":
 		return []bUserTx{mk(kA, "large", "at"), mk(kA, "large", "above")}
 	case "deposit":
-		key := fmt.Sprintf("deposit/%s/%d", op.Chain, op.Who)
-		tx := Tx(env.BLS(op.Who), &fsm.MessageDexLiquidityDeposit{ChainId: ch.counter, Amount: large, Address: addr(op.Who)}, ch.id, 0, nonce(key), key)
-		return []bUserTx{{tx, "deposit", op.Who, large, 0, op.Chain}}
+		amts := []uint64{large}
+		switch op.Amt {
+		case "small":
+			amts = []uint64{150}
+		case "split":
+			amts = []uint64{60, 60}
+		case "split-big":
+			amts = []uint64{150, 150}
+		}
+		var out []bUserTx
+		for i, amt := range amts {
+			key := fmt.Sprintf("deposit/%s/%d/%s/%d", op.Chain, op.Who, op.Amt, i)
+			if op.Amt == "" {
+				key = fmt.Sprintf("deposit/%s/%d", op.Chain, op.Who)
+			}
+			tx := Tx(env.BLS(op.Who), &fsm.MessageDexLiquidityDeposit{ChainId: ch.counter, Amount: amt, Address: addr(op.Who)}, ch.id, 0, nonce(key), key)
+			out = append(out, bUserTx{tx, "deposit", op.Who, amt, 0, op.Chain})
+		}
+		return out
 	case "withdraw":
 		key := fmt.Sprintf("withdraw/%s/%d/%d", op.Chain, op.Who, op.Pct)
 		tx := Tx(env.BLS(op.Who), &fsm.MessageDexLiquidityWithdraw{ChainId: ch.counter, Percent: op.Pct, Address: addr(op.Who)}, ch.id, 0, nonce(key), key)
@@ -695,6 +790,28 @@ func (w *bWorld) analyze(ctx *bBlockCtx) {
 	if y.Cmp(bi(a.Liq.Amount)) != 0 {
 		w.bad("pool-not-explained", tag+fmt.Sprintf("liquidity pool went %d -> %d but the settled orders, swaps, withdrawals and deposits of the block account for %s", b.Liq.Amount, a.Liq.Amount, y))
 	}
+	// provider cap: a newcomer that does not out-rank the lowest holder is rejected without an event and its
+	// escrow goes back to its account - once, and exactly the sum of its deposits
+	if w.cfg.Capped && b.Locked != nil && len(b.Liq.Points) >= lib.MaxLiquidityProviders-1 {
+		still := map[string]bool{}
+		for _, bt := range []*lib.DexBatch{a.Locked, a.Next} {
+			if bt != nil {
+				for _, d := range bt.Deposits {
+					still[hx(d.OrderId)] = true
+				}
+			}
+		}
+		for _, d := range b.Locked.Deposits {
+			it := w.items[hx(d.OrderId)]
+			if it == nil || it.State != "pending" || it.Origin != X.name || still[hx(d.OrderId)] {
+				continue
+			}
+			if dispose(d.OrderId, "deposit", "refunded", d.Amount) != nil {
+				w.addExpect(expect, it.Addr, it.Amount, +1)
+				outcome = append(outcome, "own-deposit-rejected-at-cap")
+			}
+		}
+	}
 	// user transactions of this block
 	for _, u := range ctx.user {
 		if u.chain != X.name {
@@ -722,6 +839,16 @@ func (w *bWorld) analyze(ctx *bBlockCtx) {
 		got := new(big.Int).Sub(bi(a.Bal[k]), bi(b.Bal[k]))
 		if got.Cmp(want) != 0 {
 			w.bad("wrong-payout", tag+fmt.Sprintf("account of key %d changed by %s, the block's escrows, refunds, swaps and withdrawals entitle it to %s", k, got, want))
+		}
+	}
+	for ad, was := range b.Fill {
+		want := expect[ad]
+		if want == nil {
+			want = new(big.Int)
+		}
+		delete(expect, ad)
+		if got := new(big.Int).Sub(bi(a.Fill[ad]), bi(was)); got.Cmp(want) != 0 {
+			w.bad("wrong-payout", tag+fmt.Sprintf("account of point holder %s changed by %s, the block's forced withdrawals entitle it to %s", ad, got, want))
 		}
 	}
 	for ad, v := range expect {
@@ -780,6 +907,10 @@ func (w *bWorld) analyze(ctx *bBlockCtx) {
 	for _, k := range bTracked {
 		tot.Add(tot, bi(a.Bal[k]))
 		tot.Sub(tot, bi(b.Bal[k]))
+	}
+	for ad, was := range b.Fill {
+		tot.Add(tot, bi(a.Fill[ad]))
+		tot.Sub(tot, bi(was))
 	}
 	tot.Add(tot, bi(a.Liq.Amount))
 	tot.Sub(tot, bi(b.Liq.Amount))
@@ -888,8 +1019,16 @@ func pointsMap(p *fsm.Pool) string {
 	pp := append([]*lib.PoolPoints{}, p.Points...)
 	sort.Slice(pp, func(i, j int) bool { return bytes.Compare(pp[i].Address, pp[j].Address) < 0 })
 	var sb strings.Builder
+	untouched := 0
 	for _, x := range pp {
+		if isFiller(x.Address) && x.Points == fillerPoints {
+			untouched++
+			continue
+		}
 		fmt.Fprintf(&sb, "%s=%d,", short(x.Address), x.Points)
+	}
+	if untouched > 0 {
+		fmt.Fprintf(&sb, "fillers=%d,", untouched)
 	}
 	return sb.String()
 }
@@ -1079,7 +1218,7 @@ func indent(s string) string {
 
 // ExecB replays one recipe path of part B on a fresh pair of chains.
 func ExecB(cfgName string, thorough bool, path []int) (res mc.ExecResult) {
-	alpha := BAlphabet(thorough)
+	alpha := AlphaFor(cfgName, thorough)
 	cfgName = strings.SplitN(cfgName, "#", 2)[0] // "<reserves>#<slice label>"
 	w, err := newBWorld(bCfgByName(cfgName))
 	if err != nil {
